@@ -106,7 +106,9 @@ func (f *Divide) Call(s *slip.Scope, args slip.List, depth int) (quot slip.Objec
 			if ta == 0 {
 				slip.DivisionByZeroPanic(s, depth, slip.Symbol("/"), args, "divide by zero")
 			}
-			if quot.(slip.Fixnum)%ta == 0 {
+			if ta == -1 {
+				quot = negFixnum(quot.(slip.Fixnum))
+			} else if quot.(slip.Fixnum)%ta == 0 {
 				quot = quot.(slip.Fixnum) / ta
 			} else {
 				quot = (*slip.Ratio)(big.NewRat(int64(quot.(slip.Fixnum)), int64(ta)))
